@@ -86,11 +86,12 @@ class BrokerModel:
         lq = None
         if local_len is not None:
             lq = st.alloc(("deque", local_len))
-        self._h = dict(market=market, mutex=mutex, lq=lq)
+        st.handles = dict(market=market, mutex=mutex, lq=lq, vec=vec)
+        self._h = st.handles
         return st
 
     def read_market(self, st):
-        m = dict(st.heap[self._h["market"]][1])
+        m = dict(st.heap[st.handles["market"]][1])
         v = st.heap[m[3]]
         return Market(st.heap[m[0]][1], st.heap[m[1]][1], st.heap[m[2]][1], v[1], v[2])
 
@@ -107,8 +108,10 @@ class BrokerModel:
                     ret_len = rv[1]
                 elif rv is not None and rv[0] == "bool":
                     ret_len = rv[1]
-            local_post = st.heap[self._h["lq"]][1] if self._h["lq"] is not None else None
-            res.append(Summary(method, entry, o.kind, guard, post, list(st.events), ret_len, local_post, st.discarded, o.info.get("resume"), o.info))
+            local_post = st.heap[st.handles["lq"]][1] if st.handles.get("lq") is not None else None
+            sm = Summary(method, entry, o.kind, guard, post, list(st.events), ret_len, local_post, st.discarded, o.info.get("resume"), o.info)
+            sm.suspended = st if o.kind in ("wait", "sleep") else None
+            res.append(sm)
         return res
 
     def summarize(self, method, mk, local_len=None, entry_bb=0, resume=False, closing_time=None):
@@ -126,6 +129,29 @@ class BrokerModel:
             st.events.append(("wake",))
         outs = self.ex.run(body, st, entry_bb)
         return self._summaries(method, f"bb{entry_bb}", outs)
+
+    def summarize_resume(self, wait_summary, mk):
+        """Continuation of a segment that ended in Condvar::wait: the suspended state (all frames and
+        locals) is resumed on a FRESH symbolic market; values that would have to survive the wait in
+        locals are not supported (the summaries must only mention the new market)."""
+        st = wait_summary.suspended.clone()
+        self.ex.base_constraints = mk.domain(self.tmax, self.lmax)
+        m = dict(st.heap[st.handles["market"]][1])
+        st.heap[m[0]] = B(mk.open)
+        st.heap[m[1]] = I(mk.tc)
+        st.heap[m[2]] = I(mk.oc)
+        st.heap[m[3]] = ("vec", mk.n, tuple(mk.slots))
+        st.pc, st.events, st.discarded, st.steps = [], [("wake",)], z3.IntVal(0), 0
+        body = self.bodies[wait_summary.info.get("resume_body") or wait_summary.method]
+        outs = self.ex.run(body, st, wait_summary.resume)
+        sums = self._summaries(wait_summary.method, f"resume@{wait_summary.info.get('resume_body')}:bb{wait_summary.resume}", outs)
+        allowed = {str(v) for v in mk.vars()}
+        for sm in sums:
+            for e in [sm.guard, sm.post.open, sm.post.oc, sm.post.n, sm.post.tc] + list(sm.post.slots) + ([sm.ret_len] if isinstance(sm.ret_len, z3.ExprRef) else []):
+                for v in z3.z3util.get_vars(e):
+                    if str(v) not in allowed and not str(v).startswith("now!"):
+                        raise Unsupported(f"a value computed before Condvar::wait is still live after it ({v}); not supported by the segment model")
+        return sums
 
     def initial_market(self, thread_count):
         """Executes `JobBroker::new(thread_count, None)` and reads the market it builds."""
